@@ -468,6 +468,14 @@ def c15_rules(m):
     # ---------------------------------------------------------------- R2 gating and ordering
     r = RuleResult("C15.R2", "sentinel replacement happens only when conditional lines are enabled, and before the line is classified as a comment")
     r.floor = 3
+    # the local that remembers whether the first line of the statement had a sentinel: the second result of the (non-continuation)
+    # replacement in get_source_item, whatever it is called
+    hv = "had_omp_sentinels"
+    for n_ in A.body_nodes(m.need_func(RF, "FortranReaderBase.get_source_item").node):
+        if isinstance(n_, ast.Assign) and isinstance(n_.value, ast.Call) and A.text(n_.value.func).endswith("replace_omp_sentinels") \
+                and len(n_.value.args) > 1 and not A.text(n_.value.args[1]).endswith("_cont") and isinstance(n_.targets[0], ast.Tuple) \
+                and len(n_.targets[0].elts) == 2 and isinstance(n_.targets[0].elts[1], ast.Name) and n_.targets[0].elts[1].id != "_":
+            hv = n_.targets[0].elts[1].id
     sites = []
     for qn in ("get_single_line", "get_source_item"):
         f = m.need_func(RF, "FortranReaderBase." + qn)
@@ -489,7 +497,7 @@ def c15_rules(m):
         gtxt = " and ".join(guards)
         regex_arg = A.text(c.args[1]) if len(c.args) > 1 else ""
         if regex_arg.endswith("_cont"):
-            ok = "had_omp_sentinels" in gtxt
+            ok = hv in gtxt
             why = "the continuation regex is applied although the first line had no sentinel"
         else:
             ok = "_include_omp_conditional_lines" in gtxt
@@ -500,7 +508,7 @@ def c15_rules(m):
     # had_omp_sentinels only assigned from a gated call
     gsi = m.need_func(RF, "FortranReaderBase.get_source_item")
     r.instances += 1
-    assigns = [n for n in A.body_nodes(gsi.node) if isinstance(n, ast.Assign) and "had_omp_sentinels" in A.assigned_names(n.targets[0])]
+    assigns = [n for n in A.body_nodes(gsi.node) if isinstance(n, ast.Assign) and hv in A.assigned_names(n.targets[0])]
     ok = all((isinstance(n.value, ast.Constant) and n.value.value is False) or
              (isinstance(n.value, ast.Call) and A.text(n.value.func).endswith("replace_omp_sentinels")) for n in assigns) and bool(assigns)
     r.ob(ok, "had_omp_sentinels is False or the result of the gated replacement")
